@@ -54,6 +54,17 @@ for d in /tmp/zt_x*y; do
     fi
   done
 done
+for d in /tmp/zr_k*m; do
+  [ -d "$d" ] || continue
+  id=C$(basename $d | sed 's/zr_k\(..\)m/\1/')
+  for k in 1 2 3; do
+    if [ -s $d/round7_$k.diff ]; then
+      mkdir -p /verif/seeded/$id
+      cp $d/round7_$k.diff /verif/seeded/$id/round7_$k.diff
+      [ -f $d/round7_demo_$k.py ] && cp $d/round7_demo_$k.py /verif/seeded/$id/round7_demo_$k.py
+    fi
+  done
+done
 for d in /tmp/zu_y*z; do
   [ -d "$d" ] || continue
   id=C$(basename $d | sed 's/zu_y\(..\)z/\1/')
